@@ -233,6 +233,36 @@ func exScenarios() []exScenario {
 		r.Outcome("%s", o.batchList())
 		o.checkAll(r, added, 3, 0)
 	}})
+	// two adders, each cutting a batch of its own with its Add (bulk size 1) and then waiting:
+	// each Wait covers at least the waiter's own task
+	out = append(out, exScenario{"bulk/max=1/own-batch-wait", func(r *vrt.Run) {
+		o := newExObs()
+		be := NewBulkExecutor(o.execute(true), WithBulkTasks(1), WithBulkInterval(exInterval))
+		var wg sync.WaitGroup
+		returned := map[string]int{}
+		wg.Add(2)
+		for _, n := range []string{"a0", "b0"} {
+			n := n
+			go func() {
+				defer wg.Done()
+				o.add(n, func() { be.Add(n) })
+				be.Wait()
+				vrt.Obs()
+				returned[n] = o.tick()
+			}()
+		}
+		wg.Wait()
+		for _, b := range o.batches {
+			for _, t := range b.tasks {
+				if !(b.end > 0 && b.end < returned[t]) {
+					r.Failf("Wait of the adder of %s returned at %d before its own batch %v had executed (start %d end %d): the confirmation of another adder's batch let its Add return", t, returned[t], b.tasks, b.start, b.end)
+				}
+			}
+		}
+		be.Wait()
+		r.Outcome("%s", o.batchList())
+		o.checkAll(r, []string{"a0", "b0"}, 1, 0)
+	}})
 	// single adder fills a batch (commander path) and then waits
 	out = append(out, exScenario{"bulk/max=2/single-adder-wait", func(r *vrt.Run) {
 		o := newExObs()
